@@ -36,7 +36,7 @@ ASSUMPTIONS = ["models death of the process (kernel state survives), not power l
                "an exception raised when the metadata are accessed counts as 'raises' for metadata scenarios"]
 EXHAUSTIVE = "all distinct line-granularity on-disk states of every enumerated scenario"
 OPS = ['append', 'iterappend3', 'iterappend-fail1', 'trunc-k', 'trunc-0', 'meta-first', 'meta-change', 'meta-last', 'meta-update-mixed', 'meta-update-pairs',
-       'append-darr']
+       'append-darr', 'meta-pop-keep', 'meta-popdefault-keep', 'meta-del-keep', 'meta-popitem-keep']
 MUST_HIT = ['kind:array1d', 'kind:arraynd', 'kind:ragged0', 'kind:ragged1', 'start:empty', 'start:nonempty', 'torn:emptied', 'torn:append-half',
             'torn:prefix', 'opened:legit', 'opened:raised', 'realkill:agrees'] + ['op:' + o for o in OPS]
 
@@ -84,7 +84,7 @@ def build(spec, path):
     kind, dt, tail = spec['kind'], dt_of(spec['dt']), _tail(spec['kind'])
     ragged = kind.startswith('ragged')
     n0 = spec['n0'] if spec['start'] == 'nonempty' else 0
-    md0 = {'k0': 'v0', 'n': [1, 2]} if spec['op'] in ('meta-change', 'meta-last', 'meta-update-mixed', 'meta-update-pairs') else None
+    md0 = {'k0': 'v0', 'n': [1, 2]} if spec['op'].startswith('meta-') and spec['op'] != 'meta-first' else None
     if spec['op'] == 'meta-last':
         md0 = {'k0': 'v0'}
     chunks = [_vals(dt, (ln,) + tail, spec['seed'] + 10 + i) for i, ln in enumerate(spec['lens'])]
@@ -142,6 +142,14 @@ def build(spec, path):
     elif op == 'meta-last':
         legit = [dict(md0), {}]
         fn = lambda: a.metadata.pop('k0')
+    elif op in ('meta-pop-keep', 'meta-popdefault-keep', 'meta-del-keep'):
+        # a key is removed while another one stays: the file is rewritten, not removed
+        legit = [dict(md0), {'n': [1, 2]}]
+        fn = {'meta-pop-keep': lambda: a.metadata.pop('k0'), 'meta-popdefault-keep': lambda: a.metadata.pop('k0', None),
+              'meta-del-keep': lambda: a.metadata.__delitem__('k0')}[op]
+    elif op == 'meta-popitem-keep':
+        legit = [dict(md0), {'n': [1, 2]}, {'k0': 'v0'}]       # (whichever item popitem takes)
+        fn = lambda: a.metadata.popitem()
     elif op == 'meta-update-mixed':
         # one call that carries a dict AND keyword arguments: still one change (before or after, nothing in between)
         legit = [dict(md0), dict(md0, k0='changed', extra=1.5, rig='B', n=None)]
@@ -373,7 +381,7 @@ def task_random(ctx, col, shard, n):
 
 def task_realkill(ctx, col, shard):
     """Cross-validation: kill a forked child at the n-th state change and compare the surviving directory with state n."""
-    base = [s for s in scenario_grid() if s['op'] not in ('meta-update-mixed', 'meta-update-pairs', 'append-darr')]     # (ops build_on knows)
+    base = [s for s in scenario_grid() if s['op'] not in ('meta-update-mixed', 'meta-update-pairs', 'append-darr') and not s['op'].endswith('-keep')]     # (ops build_on knows)
     specs = [s for i, s in enumerate(base) if i % NSHARDS == shard][:ctx.pick(2, 6)]
     for spec in specs:
         with ctx.scratch() as d:
